@@ -5,6 +5,8 @@ use crate::e1_twin::TwinSim;
 use crate::e1_collide::CollideSim;
 use crate::e1_valid::ValidSim;
 use crate::e3_state::StateSim;
+use crate::e4_adt::AdtSim;
+use crate::e5_interp::InterpSim;
 use crate::e2_journal::JournalSim;
 
 fn seed_from_env() -> u64 {
@@ -81,6 +83,11 @@ pub fn check(prop: &str, tier: &str) -> i32 {
                 _ => (30_000, 1_500_000),
             };
             rep.run_engine(&TxSim { focus: prop.into() }, scale(tier, q, t), &findings);
+            if prop == "C11" {
+                // API level: SharedMemory context histories against a Vec<Vec<u8>> model
+                rep.real_components.push("revm_interpreter::SharedMemory + resize_memory (API-level histories, E4)".into());
+                rep.run_engine(&AdtSim { focus: "C11".into() }, scale(tier, 200_000, 10_000_000), &findings);
+            }
             if prop == "C34" {
                 rep.real_components.extend(strs(REAL_E2));
                 rep.run_engine(&JournalSim { focus: "C34".into() }, scale(tier, 100_000, 5_000_000), &findings);
@@ -106,6 +113,38 @@ pub fn check(prop: &str, tier: &str) -> i32 {
             rep.stub_components = vec!["SimDisk + FaultyDb (simulated disk, fault injection)".into(), "reference appliers: apply_evm_state, apply_changeset, undo_group (sim/src/disk.rs, sim/src/e3_state.rs)".into()];
             rep.assumptions = vec!["plain state is compared after normalisation: zero slots dropped; with state clear an empty account without storage equals no account".into(), "State::storage is only called after the account was loaded (documented precondition)".into()];
             rep.run_engine(&StateSim { focus: prop.into() }, scale(tier, 20_000, 1_000_000), &findings);
+        }
+        "C25" => {
+            rep.rule = "E5: the interpreter alone on random byte strings, generated and mutated programs and every shipped EOF container (plus byte-mutated ones) that revm's own validation accepts, x calldata x gas limit (0 .. 1M) x 13 specs x static flag, with a simulated Host failing at a drawn host-call index and a simulated caller answering every CALL/CREATE/EOFCREATE action with a drawn legal outcome; oracles: no panic, the instruction-pointer hook (cfg risechain_revm_verif) never fires, remaining gas <= limit, stack <= 1024, at most gas_limit+2 steps, a defined final result, FatalExternalError after a failed host call. E1: every oracle of the whole-transaction monitor mode switched on, any panic inside revm during a transaction (incl. under database faults and inspector short-circuits) is a C25 violation. Distinct by the hash of (spec, eof flag, sub-action sequence, result, step count) resp. the E1 event hash".into();
+            rep.real_components = vec![
+                "revm-interpreter: Interpreter::run, all instruction handlers, Stack, SharedMemory, Gas, analysis (legacy jump table, EOF validation) with debug assertions, overflow checks and the verification hooks on".into(),
+            ];
+            rep.real_components.extend(strs(REAL_E1));
+            rep.stub_components = vec!["SimHost (map-backed Host failing on schedule), simulated caller (drawn sub-call outcomes)".into()];
+            rep.stub_components.extend(strs(STUB_E1));
+            rep.assumptions = vec![
+                "the input-space half of this property is ordinary seeded generation; what the simulation adds is the fault dimension (host / database failure at every call index), the hook as a run-time invariant and the step bound".into(),
+                "memory safety beyond panics/assertions is covered by the Miri batch of the same engine (interp-miri/), interpreter crate only".into(),
+            ];
+            let corpus = std::sync::Arc::new(crate::e5_interp::load_eof_corpus("/repo/tests/eof_suite"));
+            rep.extra.insert("eof_corpus_containers".into(), serde_json::json!(corpus.len()));
+            rep.run_engine(&InterpSim { eof_corpus: corpus }, scale(tier, 400_000, 20_000_000), &findings);
+            rep.run_engine(&TxSim { focus: "C25".into() }, scale(tier, 100_000, 3_000_000), &findings);
+        }
+        "C12" | "C13" => {
+            rep.rule = if prop == "C12" {
+                "seeded histories of 3-80 operations (push, push_b256, pop, peek, dup, swap, exchange, push_slice with lengths 0..=1024*32+64 biased to word boundaries and to the 1024 limit, set) on the real Stack against a Vec<U256> model, some starting from an almost full stack; non-trivial always, distinct by the hash of (operation kinds, error/success sequence)".into()
+            } else {
+                "seeded histories of 3-80 operations (record_cost incl. 0 / remaining / remaining+1 / u64::MAX, erase_cost of part of what was spent, record_refund +/-, set_refund, set_final_refund London/pre-London, spend_all) on the real Gas meter with limits 0, small, large, u64::MAX against three integers; distinct by the hash of operation kinds".into()
+            };
+            rep.real_components = vec![if prop == "C12" { "revm_interpreter::Stack (unmodified, incl. its unsafe pointer copies)".into() } else { "revm_interpreter::Gas (unmodified)".into() }];
+            rep.stub_components = vec!["reference model (Vec<U256> resp. three integers) in sim/src/e4_adt.rs".into()];
+            rep.assumptions = vec![
+                "no environment fault, schedule or interleaving exists at this surface: what is used from deterministic simulation is the reference-model oracle over seeded operation histories with shrinking and replay (model conformance)".into(),
+                "API preconditions respected (dup n >= 1, exchange m >= 1; erase_cost only of gas charged before; set_final_refund with a non-negative counter)".into(),
+                "push_slice: the last short word equals the big-endian number of the remaining bytes (unused high-order bytes zero), as the shipped unit test pins".into(),
+            ];
+            rep.run_engine(&AdtSim { focus: prop.into() }, scale(tier, 400_000, 20_000_000), &findings);
         }
         "C21" => {
             rep.rule = "collision matrix drawn per run: target pre-state {absent, code, nonce, storage only, balance only, nonce+storage} x layer stack {Raw, CacheDB, State, State+bundle, WrapDatabaseRef, WrapDatabaseRef<CacheDB>, CacheDB<CacheDB>, State<CacheDB>, Box<State<Box>>} (+ storage inserted into the CacheDB) x {CREATE, CREATE2, create transaction} x spec x {target touched by an earlier transaction or not} x value; a cell is distinct by (spec, layer, target state, kind, warm-up, value, lazy code)".into();
@@ -154,6 +193,8 @@ pub fn replay(path: &str) -> i32 {
         "validsim" => replay_with(&ValidSim, &rf),
         "collidesim" => replay_with(&CollideSim, &rf),
         "statesim" => replay_with(&StateSim { focus }, &rf),
+        "adtsim" => replay_with(&AdtSim { focus }, &rf),
+        "interpsim" => replay_with(&InterpSim { eof_corpus: Default::default() }, &rf),
         other => Err(format!("unknown engine {other}")),
     };
     match res {
